@@ -16,7 +16,12 @@ VARIABLE l
 e == Trace[l]
 
 QVerdict ==
-    IF OpenQuery(e) THEN "open"
+    IF OpenQuery(e) THEN
+         \* chained OPTIONAL clauses: the rows themselves are open, that none is removed is not (C10)
+         (IF ~OptChainJudgeable(e) \/ e.err THEN "open"
+          ELSE IF LeftKeptDev(e.rows, e, {}) THEN "open"
+          ELSE IF \E dv \in Deviations : LeftKeptDev(e.rows, e, {dv}) THEN CHOOSE dv \in Deviations : LeftKeptDev(e.rows, e, {dv})
+          ELSE "optional-removes-row")
     ELSE IF e.err THEN "error-instead-of-rows"
     ELSE IF RowsOK(e.rows, e) THEN "ok"
     ELSE IF \E dv \in Deviations : RowsOKDev(e.rows, e, {dv})
